@@ -136,14 +136,28 @@ class Ctx:
                     self.broken.append(f"lean-build:{m}")
                 if not self.broken:
                     self.broken.append("lean-build")
-            audit_src = os.path.join(self.workdir, "audit.lean")
-            with open(audit_src, "w") as f:
-                f.write("import SV.AuditTool\n")
-                for m in modules:
-                    f.write(f"import {m}\n")
-                for m in modules:
-                    f.write(f"#audit_module {m}\n")
-            rc2, aout = sh(["lake", "env", "lean", audit_src], cwd=LEAN, timeout=1800)
+            # audit all modules together; if that fails (one module does not build) audit them one
+            # by one so that the obligations of the modules that still build are counted
+            def audit(mods, tag):
+                audit_src = os.path.join(self.workdir, f"audit{tag}.lean")
+                with open(audit_src, "w") as f:
+                    f.write("import SV.AuditTool\n")
+                    for m in mods:
+                        f.write(f"import {m}\n")
+                    for m in mods:
+                        f.write(f"#audit_module {m}\n")
+                return sh(["lake", "env", "lean", audit_src], cwd=LEAN, timeout=1800)
+            rc2, aout = audit(modules, "")
+            if rc2 != 0 and len(modules) > 1:
+                aout_all, rc2 = "", 0
+                for i, m in enumerate(modules):
+                    r, o = audit([m], str(i))
+                    if r != 0:
+                        self.broken.append(f"lean-audit:{m}")
+                        ok = False
+                    else:
+                        aout_all += o
+                aout = aout_all
             if self.tier == "thorough" and rc == 0:
                 rc3, cout = sh(["lake", "env", "leanchecker"] + list(modules), cwd=LEAN, timeout=3600)
                 cmd_desc += f" && lake env leanchecker {' '.join(modules)}"
@@ -199,6 +213,42 @@ class Ctx:
         self.log(f"proof obligations: {self.cov['discharged']}/{self.cov['obligations']} discharged"
                  + ("" if ok else f"  BROKEN: {self.broken}"))
         return ok
+
+    # ------------------------------------------------------------------ regenerated tie
+    GO2LEAN_SPECS = [
+        "fs/remote/blob.go:floor:remote_floor", "fs/remote/blob.go:ceil:remote_ceil",
+        "fs/remote/blob.go:positive:remote_positive", "fs/remote/util.go:region.size:remote_region_size",
+        "fs/reader/reader.go:chunkContains:reader_chunkContains", "fs/reader/reader.go:positive:reader_positive",
+        "estargz/estargz.go:positive:estargz_positive",
+        "cmd/containerd-stargz-grpc/db/reader.go:positive:db_positive",
+    ]
+
+    def regen_go2lean(self):
+        """Translate the small pure arithmetic functions of the CURRENT /repo sources to Lean
+        (tools/go2lean) into lean/SV/Gen/Arith.lean.  A function that left the translatable subset
+        or disappeared is a broken tie.  The file is rewritten only when its content changes (so
+        lake does not rebuild needlessly); callers then build the SV.Props.*gen modules."""
+        with Lock("lake"):
+            binp = os.path.join(BUILD, "go2lean")
+            rc, o = sh(["go", "build", "-o", binp, "."], cwd=os.path.join(VERIF, "tools", "go2lean"), env=go_env(), timeout=600)
+            if rc != 0:
+                self.broken.append("go2lean-build")
+                print(o[-2000:])
+                return False
+            p = subprocess.run([binp, REPO] + self.GO2LEAN_SPECS, stdout=subprocess.PIPE, stderr=subprocess.PIPE, text=True)
+            if p.returncode != 0:
+                self.broken.append("go2lean:" + p.stderr.strip()[-200:])
+                self.log("go2lean FAILED:", p.stderr.strip())
+                return False
+            dst = os.path.join(LEAN, "SV", "Gen", "Arith.lean")
+            os.makedirs(os.path.dirname(dst), exist_ok=True)
+            old = open(dst).read() if os.path.exists(dst) else None
+            if old != p.stdout:
+                with open(dst, "w") as f:
+                    f.write(p.stdout)
+                self.log("regenerated SV/Gen/Arith.lean from the Go sources (content changed)")
+            self.cov["translated_functions"] = len(self.GO2LEAN_SPECS)
+        return True
 
     # ------------------------------------------------------------------ step 3 helpers
     def overlay_json(self, only=None):
